@@ -294,8 +294,10 @@ def gen_op(r, root, *, syntax_preserving=False, malformed=0.0, kinds=None, focus
     the model whose slot is edited, for the frame oracle) or None.  `focus` (an API path prefix) biases the choice
     towards one model and its descendants, so that several ops of a history hit the same instance."""
     nodes = [(p, m) for p, m in intro.walk_api(root)]
+    if kinds is not None and not any(k.startswith('tok') for k in kinds):
+        nodes = [(p, m) for p, m in nodes if not isinstance(m, base.RawTokenModel)] or nodes
     focused = [(p, m) for p, m in nodes if focus is not None and list(p[:len(focus)]) == list(focus) and len(p) <= len(focus) + 1]
-    for _ in range(40):
+    for _ in range(40 if kinds is None else 300):
         path, m = r.choice(focused) if focused and r.random() < 0.75 else r.choice(nodes)
         path = list(path)
         if isinstance(m, base.RawTokenModel):
